@@ -317,7 +317,7 @@ fn main() {
     ctx.rule("case = (mode configuration, grammar map); per case and setting a BFS over all histories of next / nth(k) / len / size_hint (+ terminal std adaptors step_by, skip, collect, last, count, zip) on a fresh gradual difficulty calculator, and of next / nth / last / len on a gradual performance calculator; state key = (reference position, calls after exhaustion <= 2); reference = plain next() iteration; non-trivial = calculator yields at least one value");
     ctx.assume("values themselves are C02/C03's business; here only the protocol (which value, None, len) is decided");
 
-    let n_max: u32 = ctx.pick(4, 5);
+    let n_max: u32 = ctx.pick(5, 6);
     let depth = 12;
     for cfg in MODE_CFGS.iter() {
         let kinds = if cfg.src == 3 { vec![Kind::Circle, Kind::Hold(300)] } else { vec![Kind::Circle, Kind::Slider2, Kind::Spinner(600)] };
